@@ -157,6 +157,11 @@ func vfRegularFilesInOrder(sc vfScenario, srcRoot string) []string {
 func vfNoSilentCorruption(c *vfCtx, sc vfScenario, res *vfRunResult, what string) bool {
 	if res.so.Kind == "success" || res.co.Kind == "success" {
 		names := res.names
+		if len(names) == 0 && (res.so.Kind != "success" || res.so.Zero) && (res.co.Kind != "success" || res.co.Zero) {
+			// e.g. a damaged "#NUM:1" read as 0: the side reports that it saved nothing, i.e. success for no file
+			c.Obs("faulted_runs_reporting_zero_files_saved", 1)
+			return true
+		}
 		if len(names) == 0 {
 			names = sc.Tops // a side said success without a captured list: the sources themselves must be there
 		}
